@@ -522,6 +522,7 @@ func checkC16(c *Ctx) {
 	checkErrPolarity(c, "C16.err-polarity")
 	checkRound4Misc(c, "C16")
 	checkC16ArgDropped(c)
+	checkC16RingTop(c)
 	checkDeleteCharStays(c, "C16.delete-char-in-line")
 	checkInsertCopies(c, "C16.insert-copies")
 }
